@@ -270,10 +270,12 @@ def mon_line(c, o):
                 if zm and abs(mu) > 1e-9 * (1 + abs(float(m[j]) * o["diag"][j])): B("NormalizeComponentsUnitVariance::train:mean", "feature %d: output mean %r != 0 (%s)" % (j, mu, shape))
                 if not zm and o["off"]: B("NormalizeComponentsUnitVariance::train:offset-without-zeroMean", "offset present although zeroMean = false")
             else:
-                if any(y < -1e-12 or y > 1 + 1e-12 for y in col):
+                # the model output is one multiply-add in doubles: rounding error relative to |diag x| + |offset| (matters for data far from the origin)
+                t12 = 1e-12 * max(1.0, abs(o["diag"][j]) * max(abs(x) for x in xs) + abs(off))
+                if any(y < -t12 or y > 1 + t12 for y in col):
                     B("NormalizeComponentsUnitInterval::train:%s" % ("constant-feature" if const else "range"),
-                      "feature %d (%s): outputs %s leave the unit interval (%s)" % (j, "constant %s" % rows[0][j] if const else "non-constant", [y for y in col if y < -1e-12 or y > 1 + 1e-12][:3], shape))
-                elif not const and (abs(min(col)) > 1e-12 or abs(max(col) - 1) > 1e-12):
+                      "feature %d (%s): outputs %s leave the unit interval (%s)" % (j, "constant %s" % rows[0][j] if const else "non-constant", [y for y in col if y < -t12 or y > 1 + t12][:3], shape))
+                elif not const and (abs(min(col)) > t12 or abs(max(col) - 1) > t12):
                     B("NormalizeComponentsUnitInterval::train:range", "feature %d: output range [%r,%r] is not [0,1] (%s)" % (j, min(col), max(col), shape))
     elif k == "L":
         lam = fr(c["args"][0]); od = c["o"]; Wm = mat(o["mat"], od, d)
@@ -562,7 +564,9 @@ def compare(c, o, mo):
             ex = ex and rep(md["off"][j])
             for i in range(n):
                 x = o["out"][i * d + j]; r = md["out"][i * d + j]
-                if not (exact(x, r) if ex else close(x, r, 1e-12)): D("out[%d,%d] model %s impl %r" % (i, j, r, x)); break
+                # one multiply-add in doubles: the rounding error is relative to |diag x| + |offset|, not to the (possibly cancelled) result
+                sc = abs(float(md["diag"][j] * c["rows"][i][j])) + abs(float(md["off"][j]))
+                if not (exact(x, r) if ex else close(x, r, 1e-12, sc)): D("out[%d,%d] model %s impl %r" % (i, j, r, x)); break
     elif k == "L":
         lam = fr(c["args"][0]); od = c["o"]
         for cc in range(od):
@@ -626,10 +630,13 @@ def compare(c, o, mo):
             MV = mat(md["mevec"], d, vc); V = mat(o["evec"], d, vc); tied = False
             for i in range(vc):
                 if small and md["mev"][i] == 0:
-                    # completion of the basis: the start vector is the arg-max of the residuals; a tie decided by rounding is not a difference
-                    # (bitwise equal residuals are no rounding matter: the code and the model both take the first one)
+                    # completion of the basis: the start vector is the arg-max of the residuals; a tie decided by rounding is not a difference.
+                    # The residuals are recomputed here from the PRINTED vectors, not with the statements of the C++ code, so bitwise equality
+                    # of the recomputed values says nothing about the values the code compared (seed 5: exactly tied residuals of a symmetric
+                    # data set, the code's own rounding picked the other coordinate): every near-tie is skipped; any completion is a valid
+                    # answer and the orthonormality / zero-variance monitors still judge it
                     res = sorted((1.0 - sum(V[j][k] * V[j][k] for k in range(i)) for j in range(d)), reverse=True)
-                    if len(res) > 1 and res[0] - res[1] < 1e-9 and res[0] != res[1]: tied = True
+                    if len(res) > 1 and res[0] - res[1] < 1e-9: tied = True
                 if tied: c["_pca_tied"] = True; break
                 for j in range(d):
                     ok = exact(V[j][i], MV[j][i]) if not small else abs(V[j][i] - float(MV[j][i])) <= 1e-10
@@ -793,6 +800,17 @@ def gen_group(rng, kind, big=False):
             G.append(("%s 1/2 %d %d %d | %d | %s | %s%s" % (kd, n, d, K, n, flat(R), " ".join(map(str, labs)), " | " + " ".join(["1"] * n) if kd == "DW" else ""), "batch"))
             G = G[-1:] if rng.random() < 0.5 else G[:1]
             break
+    elif kind == "OFF":     # data far from the origin (|mean| / spread up to 2^22: time stamps, ids, sensor offsets) for every trainer
+        # that goes through mean / meanvar: the centred statistics must not lose the spread to cancellation
+        base = rng.choice(["S", "S", "V", "V", "I", "W", "Z", "P"])
+        H = gen_group(rng, base, big)
+        d_ = int(H[0][0].split("|")[0].split()[-1])
+        offs = [Fr(rng.choice([1, -1]) * rng.choice([2 ** 16, 2 ** 20, 3 * 2 ** 18, 2 ** 22, 5 * 2 ** 19 + 1, 1000003])) for _ in range(d_)]
+        if rng.random() < 0.3: offs[rng.randrange(d_)] = Fr(0)
+        for l, rel in H:
+            secs = l.split(" | "); vals = [fr(x) for x in secs[2].split()]
+            secs[2] = " ".join(tok(x + offs[i % d_]) for i, x in enumerate(vals))
+            G.append((" | ".join(secs), rel))
     elif kind in ("D", "DW", "F"):
         K = rng.choice([2, 2, 3]); n = max(n, K + 1)
         if kind == "F": n = max(n, d + K + 2); st = rng.choice(["int", "int", "half"])
@@ -839,7 +857,7 @@ def design(rng, n, d, r):
     return [[sum(H[i][cols[k]] * T[j][k] for k in range(d)) for j in range(d)] for i in range(n)]
 
 MIX = [("S", 3), ("V", 3), ("I", 3), ("L", 4), ("W", 3), ("Z", 2), ("P", 4), ("D", 3), ("DW", 3), ("F", 2), ("ZR", 0.15), ("PS", 0.15),
-       ("PX", 0.6), ("LX", 0.8), ("DWX", 0.8), ("DE", 0.3)]
+       ("PX", 0.6), ("LX", 0.8), ("DWX", 0.8), ("DE", 0.3), ("OFF", 2.5)]
 
 # replay / corpus files: one line per group member, "#rel <relation>" comment lines give the relation of the next line
 def group_text(G): return "".join(("#rel %s\n" % r if r != "batch" else "") + l + "\n" for l, r in G)
